@@ -294,7 +294,27 @@ def r20_3(ctx, repo):
                 if isinstance(cur, ast.For):
                     loop = cur
                 cur = getattr(cur, '_parent', None)
-            per_time = loop is not None and recv.startswith('reduced_data')
+            # provenance of the ranked series (engine C): rows of the
+            # caller's frame at the time point of the enclosing loop
+            snap = {}
+
+            def on_stmt(s_, env_, val_, r=r, snap=snap):
+                if any(x is r for x in ast.walk(s_)) and 'env' not in snap \
+                        and not isinstance(s_, (ast.For, ast.If)):
+                    snap['env'] = dict(env_)
+            env0 = {a.arg: Frame(a.arg) for a in fn.args.args[1:2]}
+            walk(fn.body, env0, on_stmt)
+            ranked = ev(r.func.value, snap.get('env', {}))
+            tvar = U(loop.target) if loop is not None else None
+
+            def at_time(v):
+                return isinstance(v, Series) and tvar is not None and any(
+                    f.endswith('== ' + tvar) for f in v.filters())
+            per_time = loop is not None and at_time(ranked)
+            if loop is not None and not isinstance(ranked, Series):
+                ctx.error(rule, '%s: provenance of the ranked series `%s` '
+                          'not derived' % (construct, recv))
+                continue
             par = getattr(r, '_parent', None)
             if pct and per_time:
                 ctx.ok(rule, where, construct,
@@ -306,9 +326,20 @@ def r20_3(ctx, repo):
                               'of one time point' % recv)
             else:
                 # rank() / count: the count must be the per-time size
-                den = U(par.right) if isinstance(par, ast.BinOp) and \
+                den = par.right if isinstance(par, ast.BinOp) and \
                     isinstance(par.op, ast.Div) else None
-                if den and ('reduced_data' in den):
+                dv = None
+                if den is not None:
+                    d0 = den.args[0] if isinstance(den, ast.Call) and U(
+                        den.func) == 'len' and den.args else den
+                    if isinstance(d0, ast.Call) and isinstance(
+                            d0.func, ast.Attribute) and d0.func.attr in (
+                            'count', 'size', '__len__'):
+                        d0 = d0.func.value
+                    dv = ev(d0, snap.get('env', {}))
+                if dv is not None and (at_time(dv) or (isinstance(
+                        dv, Frame) and any(f.endswith('== ' + tvar)
+                                           for f in dv.filters))):
                     ctx.ok(rule, where, construct,
                            'ranks are normalised by the number of samples '
                            'at that time point')
@@ -319,6 +350,7 @@ def r20_3(ctx, repo):
                         'is not the number of samples at this time point: '
                         'with unequal sample counts per time the band '
                         'limits are taken at the wrong ranks and enclose '
-                        'less than the requested fraction' % (den or '?'))
+                        'less than the requested fraction' % (
+                            U(den) if den is not None else '?'))
     if n < 4:
         ctx.error(rule, 'only %d band functions analysed (floor 4)' % n)
